@@ -36,7 +36,12 @@ RULE = ("one cache per case: limit in {0 (none),1,2,3}, default expiry in {2,3,5
         "again, then overflow with new keys); a jitter stream (kind jitter: AroundDuration/AroundInt with the cache's "
         "deviation for base durations 1 ms .. 10 years incl. 1 h, 3 h, 6 h, 1 d, 30 d, 1 y and 16 scripted draws each); an "
         "authenticator stream (kind auth, rpc/internal/auth on miniredis: set/del tokens, store outages of at most 4 "
-        "failing lookups, calls with right and wrong tokens, strict and non-strict); thorough tier only: end-to-end "
+        "failing lookups, calls with right and wrong tokens, strict and non-strict, bursts of 2-8 overlapping Authenticate "
+        "calls for one app -- cold, cached, after the entry was dropped, unknown app -- with the store's HGET held until "
+        "the callers have piled up: lookups counted by a miniredis hook); fixed cases in every tier and seed: jitter for "
+        "bases 3 h .. 10 y, end-to-end expiries 3 h, 6 h, 1 d, 30 d, 1 y on large-interval wheels, and one timer-index churn "
+        "case (1000 live entries, 10001 timer removals, newer keys, compaction, then re-Set/Del of the newer keys; only "
+        "keys below 40 listed, sizes count all); thorough tier only: end-to-end "
         "cases with expiries 1 h, 3 h, 6 h stepped second by second; quick tier: end-to-end long expiries {3 h, 6 h, 1 d, "
         "30 d, 1 y} on the same cache built (in-package) on a 300-slot wheel with interval 1 min .. 7 d so that "
         "8 <= e/I <= 420 ticks, with a re-set on the way; plus a malformed stream (expiry <= 0, expiry around one second, limit < 0); "
@@ -158,6 +163,7 @@ def _auth(rng):
     strict = rng.random() < 0.35
     apps = ["a0", "a1", "a2"]
     toks = ["t0", "t1", "t2", "t3"]
+    toks_all = toks
     ops = []
     store = {}
     up = True
@@ -190,6 +196,19 @@ def _auth(rng):
             ops.append({"op": "call", "app": a, "token": t})
     if not up:
         ops.append({"op": "up"})
+    if not up:
+        ops.append({"op": "up"})
+        up = True
+    # concurrent callers share one lookup: cold start, cached, after the entry expired, unknown app
+    for _ in range(rng.randint(1, 3)):
+        a = rng.choice(apps + ["a3"])
+        n = rng.randint(2, 8)
+        toks = [store.get(a, "t0") if rng.random() < 0.6 else rng.choice(toks_all) for _ in range(n)]
+        if rng.random() < 0.7:
+            ops.append({"op": "expire", "app": a})
+        ops.append({"op": "burst", "app": a, "tokens": toks})
+        if rng.random() < 0.4:
+            ops.append({"op": "burst", "app": a, "tokens": toks[:2] + ["t3"]})
     for a in apps:   # after recovery the real token is required again
         ops.append({"op": "call", "app": a, "token": "t3"})
         ops.append({"op": "call", "app": a, "token": store.get(a, "t0")})
@@ -257,38 +276,41 @@ def _jitter_fixed():
 
 def _index_churn(keep=1000, churn=10001, second=False):
     """the wheel's timer index (SafeMap: two generations, 10000 deletions / 1000 live entries) under churn as the
-    cache produces it: `keep` old entries stay alive while `churn` timers are set and removed, newer keys arrive
-    (they land in the newer generation), one more removal crosses the compaction threshold; afterwards re-Set / Del
-    of the newer keys must still move / cancel their timers.  second: also drive the newer generation over the
-    deletion limit so that it is merged back."""
+    cache produces it: `keep` old entries (k40..) stay alive while `churn` timers are set and removed (cycling over
+    k0..k15), newer keys (k16..k27) arrive -- they land in the newer generation --, one more removal crosses the
+    compaction threshold; afterwards re-Set / Del of the newer keys must still move / cancel their timers.
+    second: also drive the newer generation over the deletion limit so that it is merged back.
+    Only the keys below 40 are listed in the observations (hide); sizes count all."""
     X = 20 * S
-    calls = [{"op": "fill", "from": 1000, "n": keep, "val": 1, "draw": 2 ** 62},
-             {"op": "churn", "from": 20000, "n": churn, "val": 2, "draw": 2 ** 62}]
-    newer = ["k%d" % i for i in range(12)]
+    K = 40
+    calls = [{"op": "fill", "from": K, "n": keep, "val": 1, "draw": 2 ** 62},
+             {"op": "churn", "from": 0, "n": churn, "val": 2, "draw": 2 ** 62}]
+    newer = ["k%d" % i for i in range(16, 28)]
     for i, k in enumerate(newer):
         calls.append({"op": "setx", "key": k, "val": 10 + i, "expire": X, "draw": 2 ** 62})       # due at tick 20
     if second:
-        calls.append({"op": "churn", "from": 40000, "n": 9999, "val": 3, "draw": 2 ** 62})
+        calls.append({"op": "churn", "from": 0, "n": 9999, "val": 3, "draw": 2 ** 62})
     calls += [{"op": "tick"}] * 3
     for i in range(keep - 999):
-        calls.append({"op": "del", "key": "k%d" % (1000 + i)})          # the last one leaves 999 old entries: compaction
+        calls.append({"op": "del", "key": "k%d" % (K + i)})             # the last one leaves 999 old entries: compaction
     if second:
-        calls.append({"op": "del", "key": "k11"})                        # 10000th removal in the newer generation
-    calls += [{"op": "get", "key": "k0"}, {"op": "get", "key": "k1500"}]
+        calls.append({"op": "del", "key": "k27"})                        # 10000th removal in the newer generation
+    calls += [{"op": "get", "key": "k16"}, {"op": "get", "key": "k%d" % (K + keep - 1)}]
     calls += [{"op": "tick"}] * 7                                        # T = 10
-    calls += [{"op": "setx", "key": "k0", "val": 50, "expire": X, "draw": 2 ** 62},            # re-Set: due 30, not 20
-              {"op": "setx", "key": "k1", "val": 51, "expire": X, "draw": 0},                  # due 31
-              {"op": "del", "key": "k2"}, {"op": "setx", "key": "k2", "val": 52, "expire": 30 * S, "draw": 2 ** 62},   # due 40
-              {"op": "del", "key": "k3"},
-              {"op": "setx", "key": "k20", "val": 53, "expire": X, "draw": 2 ** 62}]           # new key after compaction: due 30
-    calls += [{"op": "tick"}] * 12                                       # T = 22: k4.. are gone, k0 k1 k2 k20 stay
-    calls += [{"op": "get", "key": k} for k in ("k0", "k1", "k2", "k4", "k20")]
+    calls += [{"op": "setx", "key": "k16", "val": 50, "expire": X, "draw": 2 ** 62},           # re-Set: due 30, not 20
+              {"op": "setx", "key": "k17", "val": 51, "expire": X, "draw": 0},                 # due 31
+              {"op": "del", "key": "k18"}, {"op": "setx", "key": "k18", "val": 52, "expire": 30 * S, "draw": 2 ** 62},  # due 40
+              {"op": "del", "key": "k19"},
+              {"op": "setx", "key": "k30", "val": 53, "expire": X, "draw": 2 ** 62}]           # new key after compaction: due 30
+    calls += [{"op": "tick"}] * 12                                       # T = 22: k20.. are gone, k16 k17 k18 k30 stay
+    calls += [{"op": "get", "key": k} for k in ("k16", "k17", "k18", "k20", "k30")]
     calls += [{"op": "tick"}] * 10                                       # T = 32
-    calls += [{"op": "get", "key": k} for k in ("k0", "k1", "k2", "k20")]
+    calls += [{"op": "get", "key": k} for k in ("k16", "k17", "k18", "k30")]
     calls += [{"op": "tick"}] * 10                                       # T = 42
-    calls += [{"op": "get", "key": "k2"}, {"op": "del", "key": "k1600"}, {"op": "set", "key": "k1600", "val": 7, "draw": 2 ** 62},
-              {"op": "get", "key": "k1600"}]
-    return {"kind": "cache", "expire": 100 * S, "limit": 0, "phase": 0, "calls": calls}
+    last = "k%d" % (K + keep - 2)
+    calls += [{"op": "get", "key": "k18"}, {"op": "del", "key": last}, {"op": "set", "key": last, "val": 7, "draw": 2 ** 62},
+              {"op": "get", "key": last}]
+    return {"kind": "cache", "expire": 100 * S, "limit": 0, "phase": 0, "hide": K, "calls": calls}
 
 
 def _long(rng, hours):
@@ -384,12 +406,17 @@ def encode(case, obs):
                 ops.append("ADown")
             elif k == "up":
                 ops.append("AUp")
+            elif k == "expire":
+                ops.append("AExpire %s" % _n(o["app"]))
+            elif k == "burst":
+                ops.append("ABurst %s %s" % (_n(o["app"]), clist([_n(t) for t in o["tokens"]])))
             else:
                 ops.append("ACall %s %s" % (_n(o["app"]), _n(o["token"])))
         codes = [cnat(c if c >= 0 else 99) for c in obs.get("codes", [])]
-        return "CA (mka %s %s %s)" % (cbool(case["strict"]), clist(ops), clist(codes))
+        return "CA (mka %s %s %s %s %s)" % (cbool(case["strict"]), clist(ops), clist(codes), clist([cnat(x) for x in obs.get("lookups", [])]),
+                                            cbool(bool(obs.get("hung")) or "error" in obs))
     if obs.get("skipped"):      # the driver stopped running cases after too many of them hung
-        return "CC (mkcase %s %s 0%%nat %s false [] [])" % (cZ(case["expire"]), cZ(case["limit"]), cZ(S))
+        return "CC (mkcase %s %s 0%%nat %s false 0%%nat [] [])" % (cZ(case["expire"]), cZ(case["limit"]), cZ(S))
     ops, os_ = [], []
     for c, o in zip(case["calls"], obs.get("obs", [])):
         op = c["op"]
@@ -407,13 +434,14 @@ def encode(case, obs):
             ops.append("XO (KTake %s %s %s)" % (_k(c["key"]), copt(None if c.get("fail") else cnat(c["val"])), cZ(o["jit"])))
         else:
             ops.append("XO KTick")
-        os_.append("mkObs %s %s %s %s %s" % (copt(cnat(o["val"]) if o["found"] else None), cbool(o["err"]), cbool(o["fetched"]),
-                                             clist([_k(k) for k in o["keys"]]), clist([_k(k) for k in o.get("timers", [])])))
+        os_.append("mkObs %s %s %s %s %s %s %s" % (copt(cnat(o["val"]) if o["found"] else None), cbool(o["err"]), cbool(o["fetched"]),
+                                                   clist([_k(k) for k in o["keys"]]), clist([_k(k) for k in o.get("timers", [])]),
+                                                   cnat(o.get("nkeys", len(o["keys"]))), cnat(o.get("ntimers", 0))))
     if len(os_) != len(case["calls"]):
         os_ = []
     hung = bool(obs.get("hung")) or "error" in obs or len(obs.get("obs", [])) != len(case["calls"])
-    return "CC (mkcase %s %s %s %s %s %s %s)" % (cZ(case["expire"]), cZ(case["limit"]), cnat(case["phase"]), cZ(case.get("interval", S)),
-                                                 cbool(hung), clist(ops), clist(os_))
+    return "CC (mkcase %s %s %s %s %s %s %s %s)" % (cZ(case["expire"]), cZ(case["limit"]), cnat(case["phase"]), cZ(case.get("interval", S)),
+                                                    cbool(hung), cnat(case.get("hide", 0)), clist(ops), clist(os_))
 
 
 def _events(case, obs):
@@ -453,6 +481,12 @@ def bucket(case, obs):
         out = ["auth:strict" if case["strict"] else "auth:non-strict"]
         if any(o["op"] == "down" for o in case["ops"]):
             out.append("auth:outage")
+        nb = [len(o["tokens"]) for o in case["ops"] if o["op"] == "burst"]
+        if nb:
+            out.append("auth:concurrent-callers(max %d)" % max(nb))
+        if any(o["op"] == "expire" for o in case["ops"]):
+            out.append("auth:burst-after-expiry")
+        out += ["auth:burst-lookups=%d" % n for n in sorted(set(obs.get("lookups", [])))]
         out += ["auth:code=%d" % c for c in sorted(set(obs.get("codes", [])))]
         return out
     if obs.get("skipped"):
